@@ -16,5 +16,10 @@ def run(prop, tier, replay):
     if prop == "C18":
         import p_c18
         return p_c18.replay(replay) if replay else p_c18.check(tier)
+    if prop in ("C11", "C12", "C16", "C17"):
+        import p_e2
+        if replay:
+            return p_e2.replay(prop, replay)
+        return {"C11": p_e2.check_c11, "C12": p_e2.check_c12, "C16": p_e2.check_c16, "C17": p_e2.check_c17}[prop](tier)
     sys.stderr.write("no check implemented for %s\n" % prop)
     return 2
